@@ -130,4 +130,16 @@ theorem concat_offset_eq (sizes : List Nat) (idx : Nat) :
 theorem dist_start_eq (rank world : Int) : dist_start rank world = rank := rfl
 theorem dist_step_eq (rank world : Int) : dist_step rank world = world := rfl
 
+/-! ### phase 2: structure read from the source -/
+
+/-- no call site of `build_batch_sampler` passes a volume limit (`limit_number_of_volumes=None` or absent):
+the theorems with `limit = 0` cover every use -/
+theorem batch_sampler_calls_eq : batch_sampler_calls = expectedBatchSamplerCalls := rfl
+/-- `DistributedSampler` has no `set_epoch`; one generator seeded once yields `randperm` (or `arange`)
+epoch after epoch (`Sampler.infinitePrefix`) -/
+theorem dist_structure_eq : dist_structure = expectedDistStructure := rfl
+/-- the concat sampler draws the member with weights = lengths and advances that member's generator
+(`Sampler.concatRun`) -/
+theorem concat_next_eq : concat_next = expectedConcatNext := rfl
+
 end DirectVerif.Bridge.C13
